@@ -178,7 +178,7 @@ def _effect_free_deep(P, g, depth, _seen=None):
 
 
 def check_before_everything(ctx, inst, fn, cont_edges, exempt_blocks, what, key):
-    """All effects, success exits and all other workspace calls / storage reads of fn are dominated by every edge in cont_edges."""
+    """All effects, success exits and all effectful workspace calls of fn are dominated by every edge in cont_edges."""
     P = ctx.P
     body = fn.body
     targets = []
@@ -195,8 +195,7 @@ def check_before_everything(ctx, inst, fn, cont_edges, exempt_blocks, what, key)
             if _effect_free_deep(P, P.fn(p) or P.fn(generic_path(p)), 0):
                 continue
             targets.append((b, "call of %s" % generic_path(p)))
-    for (b, op, item, v) in common.storage_sites(P, fn, writes=False):
-        targets.append((b, "storage read %s" % item))
+    # storage *reads* are not targets: loading the pair record ahead of the check decides nothing about funds
     n = 0
     for b, d in targets:
         if b in exempt_blocks:
@@ -213,7 +212,7 @@ def check_before_everything(ctx, inst, fn, cont_edges, exempt_blocks, what, key)
 def _run(ctx):
     P = ctx.P
     r1 = ctx.inst("C09.R1", "decision table of the native-funds check: Ok only for {cw20} / {native, coin found, amount == coin.amount} / {native, no coin, amount == 0}", floor=3)
-    r2 = ctx.inst("C09.R2", "provide handler applies the check to every declared asset with the transaction's info, error propagated, before anything else", floor=2)
+    r2 = ctx.inst("C09.R2", "provide handler applies the check to every declared asset with the transaction's info, error propagated, before every effect, effectful call and success exit", floor=2)
     r3 = ctx.inst("C09.R3", "swap handler applies the check to the named offer asset with the caller's info, error propagated, before pricing; both entry paths pass their own info", floor=3)
     try:
         pr = roles.PairRoles(P)
